@@ -78,6 +78,10 @@ func parseInitialState(initialState string) (*model.CreateRequest, error) {
 		return nil, errors.New("initial state is not valid")
 	}
 
+	if createRequest.Operation != "" && createRequest.Operation != operation.TypeCreate {
+		return nil, errors.New("initial state is not a create request")
+	}
+
 	createRequest.Operation = operation.TypeCreate
 
 	return &createRequest, nil
